@@ -74,12 +74,14 @@ def soergel(X, Y=None):
     S = np.empty((X.shape[0], Y.shape[0]), dtype=float)
     if issparse(X):
         same = Y is X
-        if not X.has_sorted_indices:
-            X = X.sorted_indices()
+        if not X.has_canonical_format:
+            X = X.copy()
+            X.sum_duplicates()
         if same:
             Y = X
-        elif not Y.has_sorted_indices:
-            Y = Y.sorted_indices()
+        elif not Y.has_canonical_format:
+            Y = Y.copy()
+            Y.sum_duplicates()
         return _sparse_soergel(X.data, X.indices, X.indptr,
                                Y.data, Y.indices, Y.indptr, S)
     return _dense_soergel(X, Y, S)
